@@ -27,6 +27,15 @@ tensors rotate through memory layouts (fresh / views of one stream tensor / tran
 to the constructor or a call - and the base of every view - is compared bit for bit after each call (mutation:...).  Further
 oracles on the implementation: no raise on documented input, the same tensors fed again (and modified in place by the caller, then
 fed again), batch item vs single IMU, call form vs constructor form, hand-over of the reached state to a second object.
+
+Second strengthening (what the object is told vs what it holds; histories with and without optional arguments): the gravity constant
+and the sensor covariances the oracle / the model work with are taken from the SCENARIO (the value given to the constructor, or the
+documented default when the argument is omitted), never read back from the module object - so a constructor that stores another
+value than it was given (falsy regimes 0.0 / int 0, negative, omitted = documented default, zero sensor covariances) is judged by
+the mpmath recursion.  Optional arguments of forward are given to SOME calls of a history only (init_some, cov_some: init_state /
+covariances to one call, none to the next, on reset=True and reset=False objects); every call of a reset=True object must equal the
+same call on a fresh object, also after a call that was given other init_state / gyro_cov / acc_cov / rot (depends-on-earlier-calls);
+zero sensor covariances give a zero covariance.
 """
 import math
 from ..common import *
@@ -42,6 +51,34 @@ RULE = ('a scenario = one module object + a list of calls (chunks of one stream)
         'a scenario is non-trivial when it has >= 2 frames; distinct = distinct (route, dtype, B, chunking, flags, data hash)')
 EPS = {'float64': 2.0 ** -52, 'float32': 2.0 ** -23}
 KEY_COV = 'IMUPreintegrator.forward:cov:one-call-vs-chunks:F>=3'
+DEFAULTS = dict(gravity=9.81007, gyro_cov=(3.2e-3) ** 2, acc_cov=(8e-2) ** 2)     # documented constructor defaults
+
+
+def f32(x):
+    import struct
+    return struct.unpack('f', struct.pack('f', float(x)))[0]
+
+
+G32 = f32(9.81007)      # the documented default as a float32 number: the generators only use gravity values float32 holds exactly
+
+
+def gravity_of(sc):
+    """the gravity constant the object was TOLD to use: the constructor argument, or the documented default when omitted
+    (the module keeps it in torch's default dtype, float32: every generated value is exactly representable there)"""
+    g = sc.get('gravity')
+    return f32(DEFAULTS['gravity'] if g is None else g)
+
+
+def cov_of(torch, sc, key):
+    """the three sensor variances the object was TOLD to use (constructor argument / documented default; a float is one value
+    for the three axes, kept in float32), rounded to the module's dtype"""
+    v = sc.get(key)
+    v = DEFAULTS[key] if v is None else v
+    if isinstance(v, float):
+        return [f32(v)] * 3
+    return [float(x) for x in torch.tensor(v, dtype=getattr(torch, sc['dtype'])).reshape(-1)[:3]]
+
+
 STATS = {'oracle': 0.0, 'chunks': 0.0}     # worst observed error / tolerance (margins recorded in the evidence)
 
 HURWITZ = []
@@ -286,7 +323,9 @@ def cov_arg(torch, v, dtype, watch=None, name=''):
 def make_module(pp, torch, sc, watch=None):
     dtype = getattr(torch, sc['dtype'])
     watch = watch or Watch(torch)
-    kw = dict(gravity=sc['gravity'], prop_cov=sc['prop_cov'], reset=sc['reset'])
+    kw = dict(prop_cov=sc['prop_cov'], reset=sc['reset'])
+    if sc.get('gravity') is not None:                       # None: argument omitted, the documented default applies
+        kw['gravity'] = sc['gravity']
     if sc.get('gyro_cov') is not None:
         kw['gyro_cov'] = cov_arg(torch, sc['gyro_cov'], dtype, watch, 'constructor argument gyro_cov')
     if sc.get('acc_cov') is not None:
@@ -350,7 +389,7 @@ class Args:
         kw = {}
         if rot is not None:
             kw['rot'] = rot
-        cc = sc.get('call_cov')
+        cc = c.get('cov') or sc.get('call_cov')             # c['cov']: this call only; sc['call_cov']: every call
         if cc is not None:                                  # per-call sensor covariances (optional arguments of forward)
             for key in ('gyro_cov', 'acc_cov'):             # form 1: (3), form 3: (B,1,3) as the module builds it itself
                 v = [[cc[key]]] * len(c['dt']) if cc.get('form', 1) == 3 else cc[key]
@@ -386,9 +425,9 @@ def run_impl(pp, torch, sc, layout=None):
     try:
         m = make_module(pp, torch, sc, watch)
     except RuntimeError as e:
-        return dict(ctor_raised=True, err=str(e)[:200], g=sc['gravity'], cg=[0, 0, 0], ca=[0, 0, 0], calls=[])
-    res = dict(ctor_raised=False, g=float(m.gravity[2]), cg=[float(x) for x in m.gyro_cov.reshape(-1)[:3]],
-               ca=[float(x) for x in m.acc_cov.reshape(-1)[:3]], calls=[])
+        return dict(ctor_raised=True, err=str(e)[:200], g=gravity_of(sc), cg=[0, 0, 0], ca=[0, 0, 0], calls=[])
+    # what the object was told (scenario), NOT what it holds: a constructor storing other values must show up as a difference
+    res = dict(ctor_raised=False, g=gravity_of(sc), cg=cov_of(torch, sc, 'gyro_cov'), ca=cov_of(torch, sc, 'acc_cov'), calls=[])
     if sc.get('call_cov') is not None:                      # the values the calls are given, in the module's dtype
         r3 = lambda v: [float(x) for x in torch.tensor([v] * 3 if isinstance(v, float) else v, dtype=dtype)]
         res['cg'], res['ca'] = r3(sc['call_cov']['gyro_cov']), r3(sc['call_cov']['acc_cov'])
@@ -430,6 +469,8 @@ def wellformed(sc):
     such a scenario must not raise"""
     if not sc['reset'] and not sc['prop_cov']:
         return False
+    if sc.get('gravity') is not None and not isinstance(sc['gravity'], float):
+        return False                                        # documented type of gravity: float (an int may be refused, see check_oracle)
     Bs = []
     for c in sc['calls']:
         keys = ('dt', 'gyro', 'acc') + (('rot',) if c.get('rot') is not None else ())
@@ -459,6 +500,8 @@ def model_view(sc, run):
     = that state given to the constructor; covariances given to every call = given to the constructor.
     None when the scenario has no such equivalent (oracle-only)."""
     inits = [c.get('init') for c in sc['calls']]
+    if any(c.get('cov') is not None for c in sc['calls']):
+        return None                                         # covariances given to some calls only: oracle-only
     if sc['reset'] and wellformed(sc) and len(set(len(c['dt']) for c in sc['calls'])) > 1:
         # Model/IMU.v run_calls keeps the state list of a reset=True object at the batch size of its first call (the code keeps
         # the (1,1,H) constructor buffers), so the model refuses a later call with another batch size: oracle-only
@@ -652,6 +695,8 @@ def check_chunks(pp, torch, sc, run):
     if sc['reset'] or len(sc['calls']) < 2 or run['ctor_raised'] or any(r['out'] is None for r in run['calls']):
         return None, None, 0
     if any(c['ranks'] != [3, 3, 3, 3] for c in sc['calls']) or not views_applicable(sc) or any(c.get('init') is not None for c in sc['calls'][1:]):
+        return None, None, 0
+    if any(c.get('cov') is not None for c in sc['calls']):
         return None, None, 0
     one = single_call(sc)
     r1 = run_impl(pp, torch, one)
@@ -861,6 +906,77 @@ def check_handover(pp, torch, sc, run):
     return None
 
 
+def told_covs(torch, sc, c):
+    """(gyro, acc) sensor variances call c is to work with: given to the call, else to every call, else to the constructor"""
+    cc = c.get('cov') or sc.get('call_cov')
+    if cc is not None:
+        r3 = lambda v: [float(x) for x in torch.tensor([v] * 3 if isinstance(v, float) else v, dtype=getattr(torch, sc['dtype']))]
+        return r3(cc['gyro_cov']), r3(cc['acc_cov'])
+    return cov_of(torch, sc, 'gyro_cov'), cov_of(torch, sc, 'acc_cov')
+
+
+def check_cov_zero(pp, torch, sc, run):
+    """documented recursion C <- A C A^T + B diag(Cg, Ca) B^T from C = 0: noise-free sensors (Cg = Ca = 0 in every call so far)
+    give the zero covariance"""
+    if run['ctor_raised']:
+        return None
+    for ci, (c, r) in enumerate(zip(sc['calls'], run['calls'])):
+        cg, ca = told_covs(torch, sc, c)
+        if any(x != 0.0 for x in cg + ca):
+            return None
+        if r['out'] is None or r['out']['cov'] is None:
+            continue
+        for b, Cm in enumerate(r['out']['cov']):
+            worst = max(abs(x) for row in Cm for x in row)
+            if not worst == 0.0:
+                return ('call %d item %d: gyro_cov = acc_cov = 0 (noise-free sensors) but the returned covariance has an entry of '
+                        'magnitude %.3g, the documented recursion gives the zero matrix' % (ci, b, worst))
+    return None
+
+
+DECOY_STATE = dict(pos=[1.5, -2.0, 0.25], rot=[0.5, -0.5, 0.5, 0.5], vel=[-0.75, 0.5, 2.0], form=3)
+DECOY_COV = dict(gyro_cov=[0.25, 0.5, 0.125], acc_cov=[2.0, 0.5, 1.0], form=1)
+
+
+def check_history(pp, torch, sc, run):
+    """a reset=True object starts every call from what THAT call is given (init_state, covariances, rot) or else from what the
+    constructor was given - whatever was fed before ('Default initial values are used if reset is True'):
+      (a) every later call of a reset=True history = the same call alone on a fresh object;
+      (b) the first call, made after ANOTHER call on other data that was given init_state / gyro_cov / acc_cov and the opposite
+          choice of rot, = the first call on a fresh object."""
+    if not wellformed(sc) or run['ctor_raised'] or not run['calls'] or any(r['out'] is None for r in run['calls']):
+        return None
+    tols = tolerances(sc, run)
+    if sc['reset']:
+        for ci in range(1, len(sc['calls'])):
+            solo = dict(sc, calls=[sc['calls'][ci]], layout='fresh')
+            rs = run_impl(pp, torch, solo)
+            if rs['ctor_raised'] or rs['calls'][0]['out'] is None:
+                return 'call %d of the history returns, alone on a fresh object it raises: %s' % (ci, rs.get('errs') or rs.get('err'))
+            d = out_diff(rs['calls'][0]['out'], run['calls'][ci]['out'], tols[ci])
+            if d:
+                given = lambda c: [k for k in ('init', 'cov', 'rot') if c.get(k) is not None] or ['no optional argument']
+                return ('reset=True: call %d (given %s) after %d earlier call(s) (given %s) differs from the same call alone on a fresh '
+                        'object (fresh vs history): %s' % (ci, given(sc['calls'][ci]), ci, [given(c) for c in sc['calls'][:ci]], d))
+    c0 = sc['calls'][0]
+    decoy = dict(c0, dt=[[2.0 * x for x in row] for row in c0['dt']], gyro=[[[0.5 * x for x in v] for v in row] for row in c0['gyro']],
+                 acc=[[[1.0 - x for x in v] for v in row] for row in c0['acc']],
+                 rot=[[list(HURWITZ[(3 * b + k) % len(HURWITZ)]) for k in range(len(row))] for b, row in enumerate(c0['dt'])] if c0.get('rot') is None else None,
+                 init=DECOY_STATE, cov=DECOY_COV)
+    two = dict(sc, reset=True, layout='fresh', calls=[decoy, c0])
+    r2 = run_impl(pp, torch, two)
+    if r2['ctor_raised'] or r2['calls'][0]['out'] is None:
+        return 'a call inside the documented domain (init_state, gyro_cov, acc_cov, rot given) raised: %s' % (r2.get('errs') or r2.get('err'))
+    if r2['calls'][1]['out'] is None:
+        return 'the call returns on a fresh object, after another call on the same reset=True object it raises: %s' % r2.get('errs')
+    d = out_diff(run['calls'][0]['out'], r2['calls'][1]['out'], tols[0])
+    if d:
+        return ('reset=True: the call made after another call (other data, given init_state %s, gyro_cov %s, acc_cov %s, rot %s) differs '
+                'from the same call as the first call of a fresh object (fresh vs after): %s'
+                % (DECOY_STATE['pos'], DECOY_COV['gyro_cov'], DECOY_COV['acc_cov'], 'given' if decoy['rot'] is not None else 'not given', d))
+    return None
+
+
 def property_check(pp, torch, sc, run=None):
     """all clauses of the property on the implementation; returns list of (key, what)"""
     if run is None:
@@ -878,6 +994,9 @@ def property_check(pp, torch, sc, run=None):
     w = check_cov_valid(sc, run)
     if w:
         res.append(('IMUPreintegrator.forward:cov-not-symmetric-psd', w))
+    w = check_cov_zero(pp, torch, sc, run)
+    if w:
+        res.append(('IMUPreintegrator.forward:cov-nonzero-for-noise-free-sensors', w))
     b, bc, Ftot = check_chunks(pp, torch, sc, run)
     if b:
         res.append(('IMUPreintegrator.forward:chunking-changes-states', b))
@@ -888,7 +1007,8 @@ def property_check(pp, torch, sc, run=None):
         res.append(('IMUPreintegrator.forward:rank-normalisation', w))
     for key, fn in (('IMUPreintegrator.forward:same-tensors-fed-again', check_reuse), ('IMUPreintegrator.forward:batch-item-vs-single', check_per_item),
                     ('IMUPreintegrator.forward:call-argument-vs-constructor-argument', check_call_forms),
-                    ('IMUPreintegrator.forward:init_state-handover', check_handover)):
+                    ('IMUPreintegrator.forward:init_state-handover', check_handover),
+                    ('IMUPreintegrator.forward:depends-on-earlier-calls', check_history)):
         w = fn(pp, torch, sc, run)
         if w:
             res.append((key, w))
@@ -1237,6 +1357,8 @@ def run(ctx):
 def variants(rng, sc):
     """scenarios derived from sc for the search: prefixes of the stream in one call, every 2-chunking of short prefixes"""
     if not sc['calls'] or not views_applicable(sc) or any(c.get('init') is not None for c in sc['calls'][1:]):
+        return
+    if any(c.get('cov') is not None for c in sc['calls']):
         return
     try:
         one = single_call(sc)
